@@ -4,6 +4,7 @@ mod rng;
 mod specs;
 mod e2_dag;
 mod e1;
+mod e4_state;
 
 use common::{install_panic_hook, replay, run_check};
 
@@ -27,6 +28,7 @@ fn main() {
       match engine.as_str() {
         "e2-dag" => replay(&e2_dag::DagEngine, &text, path),
         "e1-build" => replay(&e1::BuildEngine, &text, path),
+        "e4-state" => replay(&e4_state::StateEngine, &text, path),
         other => { eprintln!("unknown engine {other:?} in {path}"); 2 }
       }
     }
